@@ -312,6 +312,18 @@ macro_rules! exec_msm_impl {
                 )),
             );
         }
+        // bucket method with the per-window recorder switched on (white box)
+        "pippenger_w" => {
+            let w = op["window"].as_u64().unwrap() as usize;
+            pairing::verif_pippenger::start();
+            let r = <$A>::sum_of_products_pippinger(&pts, &scr, w);
+            let rec = pairing::verif_pippenger::take();
+            out.insert("r".into(), proj_to_j(&r));
+            out.insert(
+                "iters".into(),
+                Value::Array(rec.iter().map(|(b, nd, m, ds)| json!([b, nd, m, ds])).collect()),
+            );
+        }
         "precomp" => {
             let mut pre = vec![<$A>::zero(); 256 * pts.len()];
             for i in 0..pts.len() {
